@@ -97,20 +97,20 @@ def evaluate(e, dtype):
             lc, _R = lr_orthogonal(x.cores, x.R, x.is_ttm) if len(x.cores) >= 2 else ([c for c in x.cores], None)     # (an internal routine: not defined for a single core)
             for k_, c_ in enumerate(lc[:-1]):
                 U_ = c_.reshape(-1, c_.shape[-1])
-                if float((U_.conj().T @ U_ - torch.eye(U_.shape[1], dtype=U_.dtype)).abs().max()) > 100 * tol:
+                if not (float((U_.conj().T @ U_ - torch.eye(U_.shape[1], dtype=U_.dtype)).abs().max()) <= 100 * tol):
                     fails.append("hypothesis left_orth: core %d of lr_orthogonal's output does not have an orthonormal left unfolding" % k_); break
             else:
-                if exact > 0 and abs(float(lc[-1].abs().pow(2).sum()) - exact) > 100 * tol * max(1.0, exact):
+                if not (exact <= 0) and not (abs(float(lc[-1].abs().pow(2).sum()) - exact) <= 100 * tol * max(1.0, exact)):
                     fails.append("the squared norm of the last core after lr_orthogonal differs from the squared norm of the tensor")
             if len(x.cores) >= 2:              # the mirror image (C07_norm2_first_core): rl_orthogonal leaves right-orthogonal cores and a first core carrying the norm
                 from torchtt._decomposition import rl_orthogonal
                 rc, _R2 = rl_orthogonal(x.cores, x.R, x.is_ttm)
                 for k_, c_ in enumerate(rc[1:]):
                     V_ = c_.reshape(c_.shape[0], -1)
-                    if float((V_ @ V_.conj().T - torch.eye(V_.shape[0], dtype=V_.dtype)).abs().max()) > 100 * tol:
+                    if not (float((V_ @ V_.conj().T - torch.eye(V_.shape[0], dtype=V_.dtype)).abs().max()) <= 100 * tol):
                         fails.append("hypothesis right_orth: core %d of rl_orthogonal's output does not have an orthonormal right unfolding" % (k_ + 1)); break
                 else:
-                    if exact > 0 and abs(float(rc[0].abs().pow(2).sum()) - exact) > 100 * tol * max(1.0, exact):
+                    if not (exact <= 0) and not (abs(float(rc[0].abs().pow(2).sum()) - exact) <= 100 * tol * max(1.0, exact)):
                         fails.append("the squared norm of the first core after rl_orthogonal differs from the squared norm of the tensor")
         except Exception as ex:
             fails.append("norm() raises %s" % type(ex).__name__)
